@@ -1967,6 +1967,40 @@ static int32 addCompressCount(ssl_t *ssl, int32 padLen)
 }
 #endif /* LUCKY13 */
 
+/*
+    Finished and CertificateVerify are checked against the handshake hash
+    of the messages before them: take the copy before the message itself
+    is hashed.  The copy lives in a local of parseSSLHandshake, so this must
+    run in the very call that goes on to parse the message.
+ */
+static int32 snapshotHsHashBeforeUpdate(ssl_t *ssl,
+    unsigned char hsMsgHash[SHA512_HASH_SIZE])
+{
+    if (ssl->hsState == SSL_HS_FINISHED)
+    {
+        if (sslSnapshotHSHash(ssl, hsMsgHash, PS_FALSE, PS_TRUE) <= 0)
+        {
+            psTraceErrr("Error snapshotting HS hash\n");
+            ssl->err = SSL_ALERT_INTERNAL_ERROR;
+            return MATRIXSSL_ERROR;
+        }
+    }
+#ifdef USE_CLIENT_AUTH
+    if (ssl->hsState == SSL_HS_CERTIFICATE_VERIFY)
+    {
+        /* Same issue as above for client auth.  Need a handshake snapshot
+            that doesn't include this message we are about to process */
+        if (sslSnapshotHSHash(ssl, hsMsgHash, PS_FALSE, PS_FALSE) <= 0)
+        {
+            psTraceErrr("Error snapshotting HS hash\n");
+            ssl->err = SSL_ALERT_INTERNAL_ERROR;
+            return MATRIXSSL_ERROR;
+        }
+    }
+#endif /* USE_CLIENT_AUTH */
+    return PS_SUCCESS;
+}
+
 /******************************************************************************/
 /*
     The workhorse for parsing handshake messages.  Also enforces the state
@@ -2031,6 +2065,13 @@ static int32 parseSSLHandshake(ssl_t *ssl, char *inbuf, uint32 len)
             c = ssl->fragMessage + ssl->hshakeHeadLen;
             end = ssl->fragMessage + ssl->fragTotal;
             hsLen = ssl->fragTotal - ssl->hshakeHeadLen;
+            /* The snapshot taken when the first fragment arrived was left
+               in the locals of that call; the reassembled message has not
+               been hashed yet, so take it again here. */
+            if (snapshotHsHashBeforeUpdate(ssl, hsMsgHash) < 0)
+            {
+                return MATRIXSSL_ERROR;
+            }
             goto SKIP_HSHEADER_PARSE;
         }
         else
@@ -2359,28 +2400,10 @@ hsStateDetermined:
     in the finished message (which does not include a hash of itself)
     before we update the handshake hashes
  */
-    if (ssl->hsState == SSL_HS_FINISHED)
+    if (snapshotHsHashBeforeUpdate(ssl, hsMsgHash) < 0)
     {
-        if (sslSnapshotHSHash(ssl, hsMsgHash, PS_FALSE, PS_TRUE) <= 0)
-        {
-            psTraceErrr("Error snapshotting HS hash\n");
-            ssl->err = SSL_ALERT_INTERNAL_ERROR;
-            return MATRIXSSL_ERROR;
-        }
+        return MATRIXSSL_ERROR;
     }
-#ifdef USE_CLIENT_AUTH
-    if (ssl->hsState == SSL_HS_CERTIFICATE_VERIFY)
-    {
-        /* Same issue as above for client auth.  Need a handshake snapshot
-            that doesn't include this message we are about to process */
-        if (sslSnapshotHSHash(ssl, hsMsgHash, PS_FALSE, PS_FALSE) <= 0)
-        {
-            psTraceErrr("Error snapshotting HS hash\n");
-            ssl->err = SSL_ALERT_INTERNAL_ERROR;
-            return MATRIXSSL_ERROR;
-        }
-    }
-#endif /* USE_CLIENT_AUTH */
 
 /*
     Process the handshake header and update the ongoing handshake hash
